@@ -1,7 +1,7 @@
 /-
 C10 with ALL extensions (tables off) on the domain WITH INLINE LINKS, part 3 (worker cf): the preprocessor.  fc2's
 `Lemmas/F/PlaceholdersXTFence.lean` (`XT.fencedRunA_own`: what `FencedBlockPreprocessor.run` hands to the block parser for a
-text without STX/ETX) with `AdjC false` (no backslash–backtick, CLOSED simple regions behind `](` and `![`) carried through
+text without STX/ETX) with `AdjCA false` (no backslash–backtick, CLOSED simple regions behind `](` and `![`) carried through
 the loop in place of `Adj3`.  A fenced block `text[start:stop]` is replaced by `"\n" ++ placeholder ++ "\n"`, where `start`
 is a line start and `stop` a line end: the regions of `text[:start]` are closed before its final line feed (a region does
 not cross a line feed: `regionsOK_cut` with `cutOK ('\n' :: …)`), `text[stop:]` is a suffix (`regionsOK_suffix`), the
@@ -12,11 +12,14 @@ the invariant `FInvC`, its step and the loop are restated.  No `HtmlBound` insta
 -/
 import MdVerif.Lemmas.F.PlaceholdersXTFence
 import MdVerif.Lemmas.PlaceholdersXCAll
+import MdVerif.Lemmas.F.PlaceholdersAmpRegion
 
 namespace MdVerif.NoCtlXCF.XT
+variable [MdVerif.NoCtlF.HtmlBound]
+set_option linter.unusedSectionVars false
 open Py
 open MdVerif.NoCtl (STX ETX NoCtl DomB AdjC NoPair domCharB)
-open MdVerif.NoCtlF (nn NlOpt BeforeTok AfterTok OwnBlock)
+open MdVerif.NoCtlF (nn NlOpt BeforeTok AfterTok OwnBlock DomA domCharA AdjCA NoEntR)
 open MdVerif.NoCtlXC (Qw)
 open MdVerif.Fenced
 open MdVerif.NoCtlXF.XT (Eol fenceFindFrom_shape noCtl_suffix noPair_mid mem_mid not_mem_mid ownBlock_mono ownBlock_of_noCtl
@@ -27,8 +30,8 @@ open MdVerif.NoCtlXF.XT (Eol fenceFindFrom_shape noCtl_suffix noPair_mid mem_mid
 structure FInvC (wl : Bool) (text : Str) (index h : Nat) : Prop where
   own : OwnBlock h text
   rest : NoCtl (text.drop index)
-  dom : DomB text
-  adj : AdjC false text
+  dom : DomA text
+  adj : AdjCA false text
   qw : Qw wl text
 
 /-- **one replacement keeps the invariant** -/
@@ -36,7 +39,6 @@ theorem finv_stepC {wl : Bool} {text : Str} {index h : Nat} (hI : FInvC wl text 
     (hm : fenceFindFrom text index = some m) :
     FInvC wl (text.take m.start ++ '\n' :: (Fenced.placeholder h ++ '\n' :: text.drop m.stop))
       (m.start + 1 + (Fenced.placeholder h).length) (h + 1) := by
-  haveI : NoCtlF.HtmlBound := ⟨0, false⟩
   obtain ⟨b1, b2, b3, hls, ⟨c, rD, hD, hc⟩, hle, _, _, _⟩ := fenceFindFrom_shape hm
   have hcn : c ≠ '\n' := by rcases hc with rfl | rfl <;> decide
   have hcph : ∀ n, c ∉ Fenced.placeholder n := by
@@ -162,29 +164,31 @@ theorem finv_stepC {wl : Bool} {text : Str} {index h : Nat} (hI : FInvC wl text 
               · exact hCn.2 hm'⟩
   · -- characters
     intro d hd
-    have hAd : ∀ x ∈ A, domCharB x = true := fun x hx => hI.dom x (by rw [htext]; exact List.mem_append_left _ hx)
-    have hCd : ∀ x ∈ C, domCharB x = true := fun x hx => hI.dom x (by
+    have hAd : ∀ x ∈ A, domCharA x = true := fun x hx => hI.dom x (by rw [htext]; exact List.mem_append_left _ hx)
+    have hCd : ∀ x ∈ C, domCharA x = true := fun x hx => hI.dom x (by
       rw [← hC] at hx; exact (List.drop_suffix _ _).subset hx)
     simp only [List.mem_append, List.mem_cons] at hd
     rcases hd with hd | rfl | hd | rfl | hd
     · exact hAd d hd
-    · decide
-    · cases hdd : domCharB d with
-      | true => rfl
-      | false =>
-        exfalso
-        simp only [domCharB, Bool.and_eq_false_iff, bne_eq_false_iff_eq] at hdd
-        rcases hdd with rfl | rfl <;> exact ph_not_mem h (by decide) (by decide) (by decide) hd
-    · decide
+    · exact NoCtlF.domCharA_of_ne (by decide) (by decide)
+    · refine NoCtlF.domCharA_of_ne ?_ ?_ <;> rintro rfl <;>
+        exact ph_not_mem h (by decide) (by decide) (by decide) hd
+    · exact NoCtlF.domCharA_of_ne (by decide) (by decide)
     · exact hCd d hd
   · -- no backslash–backtick; the regions stay closed: a fence starts at a line start, and no region crosses a line feed
     have hre : A ++ '\n' :: (Fenced.placeholder h ++ '\n' :: C) = A ++ ('\n' :: Fenced.placeholder h ++ ['\n']) ++ C := by
       simp
     have hAi : A <:+: text := ⟨[], D, by rw [htext]; simp⟩
     have hCi : C <:+: text := by rw [← hC]; exact (List.drop_suffix _ _).isInfix
-    refine ⟨?_, ?_⟩
+    refine ⟨⟨?_, ?_⟩, ?_⟩
+    rotate_left 2
+    · -- no entity material inside a region: infixes, newline-joins
+      have hPe : NoCtlF.NoEntA (Fenced.placeholder h) :=
+        NoCtlF.noEntA_of_plain (ph_not_mem h (by decide) (by decide) (by decide))
+          (ph_not_mem h (by decide) (by decide) (by decide))
+      exact NoCtlF.noEntA_joinNl (hI.adj.2.infix hAi) (NoCtlF.noEntA_joinNl hPe (hI.adj.2.infix hCi))
     · rw [hre]
-      exact noPair_mid (hI.adj.1.infix hAi) (hI.adj.1.infix hCi) (by simp)
+      exact noPair_mid (hI.adj.1.1.infix hAi) (hI.adj.1.1.infix hCi) (by simp)
         (not_mem_mid h (by decide) (by decide) (by decide) (by decide))
         (not_mem_mid h (by decide) (by decide) (by decide) (by decide))
     · have hrA : NoCtl.RegionsOK false A := by
@@ -192,14 +196,14 @@ theorem finv_stepC {wl : Bool} {text : Str} {index h : Nat} (hI : FInvC wl text 
         · rw [h0]; rfl
         · have hx' : NoCtl.RegionsOK false x := by
             refine NoCtl.regionsOK_cut (u := []) (t := x) (v := '\n' :: D) ?_ (NoCtl.BlkC.cutOK_nl _)
-            have := hI.adj.2
+            have := hI.adj.1.2
             rw [htext, hx] at this
             simpa using this
           rw [hx]
           exact NoCtl.regionsOK_joinNl hx' (NoCtl.regionsOK_nil false)
       have hrC : NoCtl.RegionsOK false C := by
         obtain ⟨pre, hpre⟩ : ∃ pre, text = pre ++ C := ⟨text.take m.stop, by rw [← hC]; simp⟩
-        have := hI.adj.2
+        have := hI.adj.1.2
         rw [hpre] at this
         exact NoCtl.regionsOK_suffix pre C this
       have hrP : NoCtl.RegionsOK false (Fenced.placeholder h) :=
@@ -222,7 +226,7 @@ theorem finv_stepC {wl : Bool} {text : Str} {index h : Nat} (hI : FInvC wl text 
 theorem fencedLoopA_invC (wl : Bool) : ∀ (fuel : Nat) (text : Str) (index : Nat) (stash : List Str) (t' : Str)
     (stash' : List Str), Fenced.fencedLoopA fuel text index stash = .ok t' stash' →
     FInvC wl text index stash.length → (∀ e ∈ stash, NoCtl e) →
-    (OwnBlock stash'.length t' ∧ DomB t' ∧ AdjC false t' ∧ Qw wl t') ∧ ∀ e ∈ stash', NoCtl e := by
+    (OwnBlock stash'.length t' ∧ DomA t' ∧ AdjCA false t' ∧ Qw wl t') ∧ ∀ e ∈ stash', NoCtl e := by
   intro fuel
   induction fuel with
   | zero => intro text index stash t' stash' h; simp [Fenced.fencedLoopA] at h
@@ -262,11 +266,11 @@ theorem fencedLoopA_invC (wl : Bool) : ∀ (fuel : Nat) (text : Str) (index : Na
 
 /-- **`FencedBlockPreprocessor.run` on a text without STX/ETX**: in the text handed on every STX/ETX belongs to a
     placeholder `STX wzxhzdk:n ETX`, `n` below the length of the stash, that is a block of its own; the text keeps the
-    character class of the domain (`DomB`: no `<`, no `&`), has none of the three adjacencies and (with wikilinks) no
+    character class of the domain (`DomA`: no `<`, and no `&` unless `HtmlBound.amp`), has none of the three adjacencies and (with wikilinks) no
     `[` before a blank when the source has none; every stash entry is free of STX/ETX. -/
 theorem fencedRunA_ownC (wl : Bool) {t t' : Str} {stash : List Str} (h : Fenced.fencedRunA t = .ok t' stash)
-    (hn : NoCtl t) (hd : DomB t) (ha : AdjC false t) (hq : Qw wl t) :
-    (OwnBlock stash.length t' ∧ DomB t' ∧ AdjC false t' ∧ Qw wl t') ∧ ∀ e ∈ stash, NoCtl e :=
+    (hn : NoCtl t) (hd : DomA t) (ha : AdjCA false t) (hq : Qw wl t) :
+    (OwnBlock stash.length t' ∧ DomA t' ∧ AdjCA false t' ∧ Qw wl t') ∧ ∀ e ∈ stash, NoCtl e :=
   fencedLoopA_invC wl _ _ _ _ _ _ h
     ⟨ownBlock_of_noCtl hn, by simpa using hn, hd, ha, hq⟩ (fun e he => by cases he)
 
